@@ -229,6 +229,8 @@ def rule_stop(ctx):
                     if init is not None:
                         ys = set(b["local"] for p_ in fn["params"][1:2] for b in pat_bindings(p_))
                         scaled = any(w.get("k") == "Binary" and w["op"] == "*" for w in walk(init)) and any(w.get("k") == "Path" and (w.get("name") == "y" or w.get("local") in ys) for w in walk(init))
+                if scaled is None and other.get("local") in set(b["local"] for p_ in fn["params"] for b in pat_bindings(p_)):
+                    scaled = False          # the raw tolerance parameter
                 if scaled is None:
                     res.undecided("%s : tolerance-source" % key, "where the tolerance `%s` comes from was not found (fail closed)" % r.e(other)[:20], fn_loc(fn, y["ln"]))
                 elif op not in ("<", "<="):
